@@ -97,7 +97,13 @@ Inductive case :=
           (user builtin : list (bytes * N)) (impl : res itree)
           (oe : option expr) (atoms : list (ltoken * nat))
 (* raw bytes fed to the REAL ParseAggregationFilter: impl = Ok None for (nil, nil) *)
-| CAgg (input : bytes) (cls low : list (N * N)) (cfg : bool) (impl : res (option ltoken)).
+| CAgg (input : bytes) (cls low : list (N * N)) (cfg : bool) (impl : res (option ltoken))
+(* nesting regression: the query  pre^n k:v post^n  (pre/post = `(` / `)` or `not ` / nothing) fed to
+   the REAL ParseQuery (seqql = false) or ParseSeqQL (true) under the nil mapping; impl_ok = it
+   returned a query; impl_max = the real maxNestingDepth (exported constant). eval = false: only
+   the constant and the expected outcome by level arithmetic are checked (quick tier), true: the
+   byte-level model parses the same bytes *)
+| CNest (seqql nots : bool) (n impl_max : nat) (impl_ok evalm : bool).
 
 Definition T := mkTok.
 
@@ -134,7 +140,7 @@ Definition lex_case (cls : list (N * N)) (input : bytes) : R (list ltok) :=
 Definition parse_case (cls : list (N * N)) (nilmap : bool) (user builtin : list (bytes * N))
            (input : bytes) : R ast :=
   seqql_parse (cls_bit cls 0) (cls_bit cls 1) (cls_bit cls 2) (cls_bit cls 3)
-              (mk_ftype nilmap user builtin) (fun r => r) false input.
+              (mk_ftype nilmap user builtin) (fun r => r) false (Some max_nesting_depth) input.
 
 Definition toks_agree (m : R (list ltok)) (impl : list ltok) : bool :=
   match m with ROk l => list_eqb ltok_eqb l impl | _ => false end.
@@ -202,7 +208,7 @@ Fixpoint tree_agrees (lv : list ltoken) (a : ast) (i : itree) : bool :=
 Definition legacy_case (cls low : list (N * N)) (cfg nilmap : bool) (user builtin : list (bytes * N))
            (input : bytes) : R (ast * list ltoken) :=
   legacy_parse (cls_bit cls 0) (cls_bit cls 1) (cls_bit cls 3) (low_fun low) cfg
-               (mk_ftype nilmap user builtin) input.
+               (mk_ftype nilmap user builtin) (Some max_nesting_depth) None input.
 Definition legacy_lex_case (cls low : list (N * N)) (cfg nilmap : bool) (user builtin : list (bytes * N))
            (input : bytes) : R (list tok * list ltoken) :=
   legacy_lex (cls_bit cls 0) (cls_bit cls 1) (cls_bit cls 3) (low_fun low) cfg
@@ -243,6 +249,21 @@ Fixpoint ileaves_wf (i : itree) : bool :=
   | INot a => ileaves_wf a
   | IAnd l r | IOr l r | INAnd l r => ileaves_wf l && ileaves_wf r
   end.
+
+(* ASCII class oracle for the nesting cases (their inputs are ASCII) *)
+Definition nest_space (r : N) : bool := N.eqb r 32.
+Definition nest_letter (r : N) : bool := in_range 97 122 r.
+Definition nest_digit (r : N) : bool := in_range 48 57 r.
+Definition nest_input (nots : bool) (n : nat) : bytes :=
+  if nots then concat (repeat [110; 111; 116; 32]%N n) ++ [107; 58; 118]%N
+  else repeat 40%N n ++ [107; 58; 118]%N ++ repeat 41%N n.
+Definition nest_model_ok (seqql nots : bool) (n : nat) : bool :=
+  if seqql then
+    match seqql_parse nest_space nest_letter nest_digit nest_digit (fun _ => 1%N) (fun r => r) false
+                      (Some max_nesting_depth) (nest_input nots n) with ROk _ => true | _ => false end
+  else
+    match legacy_parse nest_space nest_letter nest_digit (fun r => r) false (fun _ => 1%N)
+                       (Some max_nesting_depth) None (nest_input nots n) with ROk _ => true | _ => false end.
 
 Definition ltok_wf (t : ltok) : bool :=
   t_quoted t || match t_txt t with [] => false | _ => true end.
@@ -295,6 +316,9 @@ Definition case_agrees (c : case) : bool :=
       | RErr, Err => true
       | _, _ => false
       end
+  | CNest seqql nots n impl_max impl_ok evalm =>
+      Nat.eqb impl_max max_nesting_depth
+      && (if evalm then Bool.eqb (nest_model_ok seqql nots n) impl_ok else true)
   end.
 
 (* implementation output satisfies the property (independent of the model's parser) *)
@@ -351,6 +375,9 @@ Definition case_spec_ok (c : case) : bool :=
       | Ok (Some (LLit _ (_ :: _))) | Ok None | Err => true
       | _ => false
       end
+  | CNest _ _ n impl_max impl_ok _ =>
+      (* n brackets / NOTs put the leaf at level n + 1: accepted iff n + 1 <= maxNestingDepth *)
+      Bool.eqb impl_ok (Nat.leb (S n) impl_max)
   end.
 
 Definition diff_indices (l : list case) : list nat := bad_indices (fun c => negb (case_agrees c)) l.
